@@ -41,17 +41,11 @@ def nodeOpsS (tbl : List PrefixRow) (net : Net) (sn : List Nat) (ix : Idx) (stri
   | some p =>
     let inp := ix.ppi + p
     let z := ix.zero
-    let first := match nd.outPin 0 with
-      | some l => [OpRow.mk BUF1 l inp z z z]
-      | none => []
-    let rest :=
-      if nd.isDff then
-        match nd.outPin 1 with
-        | some l => [OpRow.mk INV1 l inp z z z]
-        | none => []
-      else
-        (nd.outs.drop 1).filterMap fun o => o.map fun l => OpRow.mk BUF1 l inp z z z
-    first ++ rest
+    -- first output BUF; a flip-flop's second output is inverted and further outputs are ignored; every other
+    -- output of a non-flip-flop is a BUF
+    let pins := if nd.isDff then nd.outs.take 2 else nd.outs
+    pins.zipIdx.filterMap fun (o, k) => o.map fun l =>
+      OpRow.mk (if nd.isDff && k == 1 then INV1 else BUF1) l inp z z z
   | none =>
     let z := ix.zero
     let o0 := (nd.outPin 0).getD ix.tmp
